@@ -234,7 +234,7 @@ func handleInsertStatement(query, pattern sqlparser.Statement) bool {
 	if !match {
 		return false
 	}
-	return false
+	return true
 }
 func handleUpdateStatement(query, pattern sqlparser.Statement) bool {
 	var match bool
@@ -1069,13 +1069,22 @@ func areEqualConvertType(query, pattern *sqlparser.ConvertType) bool {
 	if !strings.EqualFold(query.Operator, pattern.Operator) {
 		return false
 	}
-	if areEqualSQLVal(query.Length, pattern.Length) {
+	if !areEqualOptionalSQLVal(query.Length, pattern.Length) {
 		return false
 	}
-	if areEqualSQLVal(query.Scale, pattern.Scale) {
+	if !areEqualOptionalSQLVal(query.Scale, pattern.Scale) {
 		return false
 	}
 	return true
+}
+func areEqualOptionalSQLVal(query, pattern *sqlparser.SQLVal) bool {
+	if query == nil && pattern == nil {
+		return true
+	}
+	if query == nil || pattern == nil {
+		return false
+	}
+	return areEqualSQLVal(query, pattern)
 }
 func areEqualValuesFuncExpr(query, pattern *sqlparser.ValuesFuncExpr) bool {
 	return areEqualColName(query.Name, pattern.Name)
@@ -1084,7 +1093,7 @@ func areEqualCaseExpr(query, pattern *sqlparser.CaseExpr) bool {
 	if !areEqualExpr(query.Expr, pattern.Expr) {
 		return false
 	}
-	if !areEqualExpr(query.Else, pattern.Expr) {
+	if !areEqualExpr(query.Else, pattern.Else) {
 		return false
 	}
 
@@ -1136,7 +1145,7 @@ func areEqualIntervalExpr(query, pattern *sqlparser.IntervalExpr) bool {
 	if !strings.EqualFold(query.Unit, pattern.Unit) {
 		return false
 	}
-	if areEqualExpr(query.Expr, pattern.Expr) {
+	if !areEqualExpr(query.Expr, pattern.Expr) {
 		return false
 	}
 	return true
@@ -1383,6 +1392,9 @@ func isSubqueryPattern(pattern *sqlparser.Subquery) bool {
 	return reflect.DeepEqual(pattern.Select, SubqueryPatternStatement.(*sqlparser.Select))
 }
 func isWherePattern(pattern *sqlparser.Where) bool {
+	if pattern == nil {
+		return false
+	}
 	if !strings.EqualFold(pattern.Type, WherePatternStatement.(*sqlparser.Select).Where.Type) {
 		return false
 	}
